@@ -48,7 +48,9 @@ CHECKS = {
              "same literal written explicitly; errors are local to the argument; REFINEMENT: for every argument "
              "definition, node, variable map and fuel the implementation model's argument_coercer (and the "
              "whole argument map) gives the outcome of the specification's CoerceArgumentValues written "
-             "independently in Model/SpecArgs.v (no entry / this value / field error). Leaf literal=variable laws "
+             "independently in Model/SpecArgs.v (no entry / this value / field error), and the literal coercer chain "
+             "equals the coercion of a literal by recursion on the declared type (Model/SpecLiteral.v) for every "
+             "schema, type, literal, variables, fuel. Leaf literal=variable laws "
              "are the C10 theorems. The impl model is tied to /repo by generated requests that spell one value "
              "as literal / variable / nested variable / variable default / schema default / null / omitted; "
              "the dictionaries the real resolvers receive are compared with the model inside Coq and with "
